@@ -20,6 +20,14 @@ def gen_cases(ctx):
     for _ in range(300 if ctx.tier == "quick" else 3000):
         ln = rng.choice([rng.randrange(320, 9000), rng.randrange(320, 70000) if ctx.tier != "quick" else rng.randrange(320, 5000)])
         lines.append("g 3 %d %d %d" % (rng.randrange(1, 2**31), ln, rng.randrange(8)))
+    # long buffers around the sizes where optimised CRC implementations switch code paths (block / stripe sizes), each with a
+    # PRNG start alignment: any path taken only above some length must agree with the reference too
+    for base in ([1024, 4096, 8192, 12288, 16384, 24576, 32768, 65536, 131072] if ctx.tier == "quick" else
+                 [1024, 2048, 3072, 4096, 6144, 8192, 12288, 16384, 24576, 32768, 49152, 65536, 98304, 131072, 196608, 262144, 524288]):
+        for d in (-1, 0, 1, 9):
+            lines.append("g 3 %d %d %d" % (rng.randrange(1, 2**31), base + d, rng.randrange(8)))
+    for ln in ([1048576 + 5, 786432 + 3] if ctx.tier == "quick" else [1048576 + 5, 786432 + 3, 2097152 + 1, 4194304, 3000001]):
+        lines.append("g 3 %d %d %d" % (rng.randrange(1, 2**31), ln, rng.randrange(8)))
     # every single-byte buffer value at every alignment (table rows), explicit bytes
     for al in range(8):
         for b in range(256):
@@ -62,7 +70,7 @@ def run(ctx):
     lines = gen_cases(ctx)
     compare(ctx, lines)
     ctx.cov["rule"] = ("cases = (pattern, length, alignment) for jls_crc32c and 32-byte headers for jls_crc32c_hdr; every length 0..%d x 8 alignments x "
-                       "{zeros, 0xff, ramp, PRNG}, random longer buffers, all 256 single bytes x 8 alignments, random and one-hot headers; each on the "
+                       "{zeros, 0xff, ramp, PRNG}, random longer buffers, long buffers at and around 1 KiB .. 128 KiB (512 KiB) block sizes and ~1 MiB (4 MiB), all 256 single bytes x 8 alignments, random and one-hot headers; each on the "
                        "SSE4.2, table-driven and ASan builds; distinct = (build, length, alignment, pattern/content); all non-trivial (result compared "
                        "with the extracted reference, short ones also with the bit-serial definition)" % (320 if ctx.tier == "quick" else 4096))
     if ctx.tier == "thorough":
